@@ -77,6 +77,14 @@ def layering_rule(repo: Repo, rep, rule: str = "R17.2") -> None:
     # ---------------------------------------------------------------- R17.2 layering
     if prep is None:
         raise AnalysisError("anchor vanished: HttpxTransport._prepare_headers")
+    from sa.report import with_flatten_fallback as _wff
+
+    # the layering may be split over private helpers of the transport (`_merge_base_headers`, `_forward_auth_extras`): the function is
+    # examined as written and, if that does not show the pattern, with those helpers written out
+    _wff(rep, prep, lambda f_, r_: _layering_body(tmod, f_, r_, rule))
+
+
+def _layering_body(tmod, prep: Function, rep, rule: str) -> None:
     cfg = CFG(prep.node)
     sub0 = f"{tmod.relpath}:HttpxTransport._prepare_headers"
     # the working dict
@@ -139,9 +147,17 @@ def layering_rule(repo: Repo, rep, rule: str = "R17.2") -> None:
                     t = n.targets[0] if isinstance(n, ast.Assign) else n.target
                     if isinstance(t, ast.Name) and t.id == arg.id and n.value is not None and isinstance(n.value, ast.Dict):
                         cand_dicts.append(n.value)
+        # plain copies of the working dict's name (`prepared = merged`, e.g. the result of an inlined helper) are the same dict
+        aliases = {wv}
+        for _ in range(3):
+            for n in own_nodes(prep.node):
+                if isinstance(n, (ast.Assign, ast.AnnAssign)) and isinstance(getattr(n, "value", None), ast.Name) and n.value.id in aliases:
+                    t = n.targets[0] if isinstance(n, ast.Assign) else n.target
+                    if isinstance(t, ast.Name):
+                        aliases.add(t.id)
         for dct in cand_dicts:
             for k, v in zip(dct.keys, dct.values):
-                if k is not None and const_str(k) == "headers" and any(isinstance(x, ast.Name) and x.id == wv for x in ast.walk(v)):
+                if k is not None and const_str(k) == "headers" and any(isinstance(x, ast.Name) and x.id in aliases for x in ast.walk(v)):
                     src_ok = True
         if src_ok:
             rep.ok(rule, sub0 + " auth sees layered headers", f"the plugin receives {{'headers': {wv}.copy()}}", prep.loc(a_calls[0]))
